@@ -7,7 +7,7 @@ import (
 )
 
 func init() {
-	c19 := &Component{Name: "pipe_c19", Exec: execPipe, Rule: "C19 stream: configurations from the YAML grammar with every option drawn from valid, boundary and invalid values (buckets unsorted/duplicate/empty/with +Inf/NaN, quantiles outside [0,1] or NaN, max_age negative/zero/huge, age_buckets/buf_cap 0 or large, reserved or too-short label names, huge ttl, odd scale, legacy + new option combinations, bad enums, bad match/name), loaded into the real mapper; when the load succeeds a standard battery of lines of every type hitting every rule (plus unmapped names) is sent and the endpoint is scraped after every line. Whether the load is accepted is compared with the model's `load`; the run after it with the pipeline model. Non-trivial: the configuration differs from the valid baseline in at least one option class; distinct by op text."}
+	c19 := &Component{Name: "pipe_c19", Exec: execPipe, Rule: "C19 stream: configurations from the YAML grammar with every option drawn from valid, boundary and invalid values (buckets unsorted/duplicate/empty/with +Inf/NaN, quantiles outside [0,1] or NaN, max_age negative/zero/huge/a few nanoseconds (so that max_age / age_buckets is 0 with its own or with an INHERITED age_buckets, and the other way round), age_buckets/buf_cap 0 or large, reserved or too-short label names, huge ttl, odd scale, legacy + new option combinations, bad enums, bad match/name), loaded into the real mapper; when the load succeeds a standard battery of lines of every type hitting every rule (plus unmapped names) is sent and the endpoint is scraped after every line. Whether the load is accepted is compared with the model's `load`; the run after it with the pipeline model. Non-trivial: the configuration differs from the valid baseline in at least one option class; distinct by op text."}
 	c19.Gen = func(r *rand.Rand, tier string, emit Emit) {
 		n := 4000
 		if tier == "thorough" {
@@ -23,6 +23,20 @@ func init() {
 			h.line("t.c:1|c")
 			h.scrape()
 			emit(h.op(), true, "corpus_hang")
+		}
+		// corpus: the two halves of max_age / age_buckets come from different places (defaults and rule), each fine alone
+		ms := int64(time.Millisecond)
+		for _, cr := range [][4]int64{{int64(10 * time.Minute), 60, 30, 0}, {50, 0, 0, 100}, {30, 0, 0, 0}, {0, 1000, 999, 0}, {0, 1000, 1000, 0}, {int64(time.Hour), 1000, 4, 1},
+			{int64(10 * time.Minute), 1000, 10 * ms, 0}, {50 * ms, 0, 0, 100}, {0, 1000, 1000 * ms, 0}, {int64(time.Hour), 1000, 4 * ms, 1}, {int64(10 * time.Minute), 60, 30 * ms, 0}} {
+			for _, obs := range []*string{nil, sp("summary")} { // only a rule that resolves to summary inherits the missing half
+				h := &pipeHist{flags: "1111"}
+				h.load(&rawCfg{maxAge: cr[0], ageBuckets: int(cr[1]), rules: []rawRule{{match: "t.*", name: "m_$1", obs: obs, so: &rawSO{maxAge: cr[2], ageBuckets: int(cr[3])}}, {match: "u.*", name: "n_$1"}}})
+				for _, l := range battery {
+					h.line(l)
+					h.scrape()
+				}
+				emit(h.op(), true, "corpus_inherit")
+			}
 		}
 		for i := 0; i < n; i++ {
 			c, deviates := genC19Cfg(r)
@@ -50,8 +64,8 @@ func init() {
 func genC19Cfg(r *rand.Rand) (*rawCfg, bool) {
 	bucketSets := [][]float64{{0.1, 1, 10}, {1, 0.5}, {1, 1}, {}, {1, 2, inf()}, {nan(), 1}, {-1, 0, 1}, {5}, {inf()}, {1, nan()}}
 	quantSets := [][]quant{{{0.5, 0.05}, {0.9, 0.01}}, {{1.5, 0.1}}, {{-0.1, 0.1}}, {{0.5, 2}}, {{nan(), 0.1}}, {}, {{0, 0}, {1, 0}}, {{0.5, -0.1}}}
-	ages := []int64{0, int64(5 * time.Minute), -int64(time.Second), int64(10 * time.Minute), int64(time.Hour), -1, 1 << 62}
-	small := []int{0, 1, 5, 1000}
+	ages := []int64{0, int64(5 * time.Minute), -int64(time.Second), int64(10 * time.Minute), int64(time.Hour), -1, 1 << 62, 4, 30, 999, 1000, int64(time.Millisecond), 5 * int64(time.Millisecond), 10 * int64(time.Millisecond), int64(time.Second)}
+	small := []int{0, 1, 5, 1000, 60}
 	labelNames := []string{"ok_label", "ab", "a", "__x", "le", "quantile", "_", "__", "9a", "a-b", "job"}
 	c := &rawCfg{}
 	cls := []string{}
